@@ -205,8 +205,25 @@ func (g *Gen) loopWrites(li *loopInfo) (objs []string, regions []region, allocs 
 						if r := rootOf(cc.Args[0]); g.definedOutside(li, r) {
 							addRoot(cc.Args[0])
 						} else {
-							// loop-carried slice: checked at the append site (target allocated since loop entry)
-							li.appendFresh = true
+							// loop-carried slice: checked at the append site (target allocated since loop entry), unless the
+							// loop declares every cell of the element sorts modified (`loop K modifies * in Int`)
+							declared := false
+							if st, isS := cc.Args[0].Type().Underlying().(*types.Slice); isS {
+								declared = len(g.lay.Cells(st.Elem())) > 0
+								for _, c := range g.lay.Cells(st.Elem()) {
+									in := false
+									for _, ms := range li.spec.ModSorts {
+										in = in || ms == c.Sort
+									}
+									declared = declared && in
+								}
+								if declared {
+									unknownTarget(st.Elem())
+								}
+							}
+							if !declared {
+								li.appendFresh = true
+							}
 						}
 					}
 					if b.Name() == "copy" {
@@ -257,7 +274,7 @@ func baseIdent(e *Expr) string {
 }
 
 func (g *Gen) callWrites(li *loopInfo, ct *Contract, cc *ssa.CallCommon, addTarget, addRoot func(ssa.Value), addRegion func(region), ok *bool, why *string, allocs *bool) {
-	if ct.ModAny {
+	if ct.ModAny || len(ct.ModSorts) > 0 {
 		*ok = false
 		*why = "callee " + ct.Key + " modifies *"
 		return
@@ -410,6 +427,13 @@ func (g *Gen) loopEntryEdges(li *loopInfo, edges []inEdge) {
 		g.assumeRaw(fmt.Sprintf("(>= %s %s)", g.nextobj, preNext))
 	}
 	for _, k := range sortedKeys(g.ghost) {
+		kept := false
+		for _, kn := range li.spec.Keeps {
+			kept = kept || kn == k
+		}
+		if kept {
+			continue // `loop K keeps k`: value of the loop entry, shown unchanged at every back edge
+		}
 		if g.eng.ghostLoopHavoc(g, li, k) {
 			g.ghost[k] = g.freshConst("gh_"+k, g.ghostSortOf(k))
 		}
@@ -491,6 +515,11 @@ func (g *Gen) backEdge(li *loopInfo, cond string, pos token.Pos) {
 	for _, c := range li.spec.Inv {
 		t := g.specBool(env, c.E)
 		g.obligeNamed(fmt.Sprintf("%s#%s.keep", g.unit, c.Name), "inv.keep", t, pos, "loop invariant is preserved: "+c.Text, c.Props)
+	}
+	for _, kn := range li.spec.Keeps {
+		if li.headGhost != nil && g.ghost[kn] != li.headGhost[kn] {
+			g.obligeNamed(fmt.Sprintf("%s#keeps%d.%s", g.unit, li.ordinal, sanitize(kn)), "inv.keep", fmt.Sprintf("(= %s %s)", g.ghost[kn], li.headGhost[kn]), pos, "ghost variable "+kn+" is unchanged by the loop (loop keeps)", nil)
+		}
 	}
 	if li.spec.Dec != nil && li.decAtHead != "" {
 		d := g.specVal(env, li.spec.Dec.E)
@@ -1348,6 +1377,13 @@ func (g *Gen) frameCheck(env *Env, pos token.Pos) {
 		if g.heap[s] == g.H0[s] {
 			continue
 		}
+		wild := false
+		for _, ms := range g.ct.ModSorts {
+			wild = wild || ms == s
+		}
+		if wild {
+			continue
+		}
 		var inFoot []string
 		for _, m := range g.ct.Modifies {
 			fp := g.footprint(entry, m.E)
@@ -1648,6 +1684,14 @@ func (g *Gen) atLoopBody(li *loopInfo, at ssa.Instruction) {
 			}
 		case "inst":
 			g.instFact(env, as)
+		case "set":
+			if _, declared := g.ghost[as.Name]; !declared {
+				g.bindFail("set of undeclared ghost variable " + as.Name)
+				continue
+			}
+			if v := g.specVal(env, as.C.E); v != nil && len(v.S) == 1 {
+				g.ghost[as.Name] = g.def("gh_"+as.Name, g.ghostSortOf(as.Name), v.S[0])
+			}
 		case "ghost":
 			v := g.specVal(env, as.C.E)
 			if v != nil {
